@@ -55,11 +55,17 @@ func crSegsVal(segs []crSeg) Val {
 }
 
 // ops of one segment end: how the session is left before the file is reopened
+// front-ends of the kind "resume": 0 = blockstore.OpenReadWrite(path), 1 = storage on a file,
+// 5 = blockstore.OpenReadWriteFile on a caller-owned *os.File that is REUSED for every reopen,
+// 6 = the same with the caller moving the handle's cursor before each reopen.  The model has one
+// blockstore front-end: the handle and its cursor are not part of it.
+func crIsBS(kind uint64) bool { return kind == 0 || kind == 5 || kind == 6 }
+
 func crCutOps(kind uint64, cut string) VL {
 	if cut == "finalize" {
 		return VL{VL{VT("finalize")}}
 	}
-	if kind == 0 {
+	if crIsBS(kind) {
 		return VL{VL{VT("discard")}}
 	}
 	return VL{} // a StorageCar has no close: the handle is dropped
@@ -176,7 +182,7 @@ func c12Refusal(work string, kind uint64, o2 wOpts, roots2 []cid.Cid, file []byt
 	if err := os.WriteFile(path, file, 0o644); err != nil {
 		panic(err)
 	}
-	if kind == 0 {
+	if crIsBS(kind) {
 		if len(file) == 0 {
 			return "open-new"
 		}
